@@ -318,6 +318,12 @@ class Interp:
                     import sympy
                     return sympy.Function(name)(*args)  # symbolic evaluation: the conversion stays an uninterpreted term
                 raise Flow("raise", f"{type(exc).__name__}({str(exc)!r})", node) from None
+        if name in ("all", "any") and name not in self.env and len(node.args) == 1 and not node.keywords:
+            seq = self.ev(node.args[0])
+            if isinstance(seq, Unknown):
+                return Unknown(name)
+            vals = [self.truth(v, node) for v in list(seq)]
+            return all(vals) if name == "all" else any(vals)
         if name in ("range", "enumerate", "zip", "min", "max", "sum", "sorted", "list", "tuple", "reversed", "round") \
                 and name not in self.env and all(k.arg in ("strict", "start", "reverse", "default") for k in node.keywords):
             args = []
@@ -457,6 +463,9 @@ class Interp:
                                 raise Flow("raise", f"{type(exc).__name__}({str(exc)})", st) from None
                 elif isinstance(tg, ast.Name) and tg.id in self.env:
                     del self.env[tg.id]
+        elif isinstance(st, ast.Assert) and self.loop_hook is not None:
+            if not self.truth(self.ev(st.test), st.test):
+                raise Flow("raise", f"AssertionError({U(st.test)[:60]})", st)
         elif isinstance(st, (ast.With, ast.AsyncWith)) and self.loop_hook is not None:
             for item in st.items:
                 ctx = self.ev(item.context_expr)  # the context manager model is its own __enter__ result; __exit__ has no modelled effect
